@@ -797,7 +797,7 @@ class Interp:
             t_ret = r
         except BreakSignal:
             t_ret = ReturnSignal(BREAK)
-            self.breaks.append((c.key(), snapshot(env)))
+            self.breaks.append((c.key(), snapshot(env), self.probe() if self.probe else None))
         finally:
             self.cond_stack.pop()
         tstate = snapshot(env)
@@ -810,7 +810,7 @@ class Interp:
                 e_ret = r
             except BreakSignal:
                 e_ret = ReturnSignal(BREAK)
-                self.breaks.append((c.negate().key(), snapshot(env)))
+                self.breaks.append((c.negate().key(), snapshot(env), self.probe() if self.probe else None))
             finally:
                 self.cond_stack.pop()
         estate = snapshot(env)
@@ -985,7 +985,9 @@ class Interp:
         inner = blk if isinstance(blk, dict) and blk.get("k") == "if" else (
             strip(blk.get("tail")) if isinstance(blk, dict) and blk.get("k") == "block" and not blk.get("stmts") else None)
         if not (isinstance(inner, dict) and inner.get("k") == "if" and "else" in inner):
-            raise Undecided("bare loop", e.get("span"))
+            inner = self.loop_with_leading_exit(blk)
+            if inner is None:
+                raise Undecided("bare loop", e.get("span"))
         muts = mutated_locals({"k": "expr", "e": inner["then"]})
         inner_vars = collect_bound_vars(inner["then"])
         muts = [m for m in muts if m[0] not in inner_vars and env.lookup(m[0]) is not None]
@@ -993,6 +995,7 @@ class Interp:
         def havoc():
             for (vid, name, ty) in muts:
                 env.set(vid, opaque_by_type(ty, name, self.types))
+        self.pre_while_state = {name: env.get(vid) for (vid, name, ty) in muts}
         havoc()
         if self.on_while is not None:
             self.on_while(self, inner["cond"], inner["then"], env, muts)
@@ -1000,7 +1003,33 @@ class Interp:
         self.while_loops.append([m[1] for m in muts])
         return UNIT
 
+    def loop_with_leading_exit(self, blk):
+        """`loop { if c { break; } rest… }` is `while !c { rest… }`: returns the equivalent {cond, then} pair or None."""
+        if not (isinstance(blk, dict) and blk.get("k") == "block" and blk.get("stmts")):
+            return None
+        first = blk["stmts"][0]
+        if first.get("k") == "let" or "e" not in first:
+            return None
+        fi = strip(first["e"])
+        if not (isinstance(fi, dict) and fi.get("k") == "if" and "else" not in fi):
+            return None
+        th = strip(fi["then"])
+        while isinstance(th, dict) and th.get("k") == "block":
+            if th.get("stmts") and len(th["stmts"]) == 1 and "tail" not in th and th["stmts"][0].get("k") != "let":
+                th = strip(th["stmts"][0]["e"])
+            elif not th.get("stmts") and "tail" in th:
+                th = strip(th["tail"])
+            else:
+                return None
+        if not (isinstance(th, dict) and th.get("k") == "break"):
+            return None
+        rest = dict(blk)
+        rest["stmts"] = blk["stmts"][1:]
+        return {"k": "if", "cond": {"k": "unary", "op": "Not", "e": fi["cond"], "ty": "bool"}, "then": rest, "else": {"k": "break"}}
+
     on_while = None
+    probe = None
+    pre_while_state = None
 
     def e_break(self, e, env):
         if self.in_transfer:
